@@ -565,6 +565,34 @@ def r8_framework_item_lookup_is_exact(ctx):
     ctx.ob('C08.R8', 'exact-lookup', ok_one and key_ok, b.loc(exact[0][0]) if exact else b.loc(), detail)
 
 
+def r9_template_names_unmodified(ctx):
+    ctx.rule('C08.R9', 'P7 provenance: `RoutePath::parse` is what `verify_path_parameters` compares the fields of a `PathParams` struct against, while the '
+             'router binds the names exactly as they are written in the template. The key under which a parameter is recorded is therefore the run of '
+             'characters between the braces, collected and copied and nothing else: every call on the way from the template text to the key of '
+             '`parameters.insert(key, ..)` is in the reviewed list of collecting / copying operations (a `replace`, a case fold or a trim there makes the '
+             'check accept a field the router will never fill).')
+    RP = A + 'route_path::RoutePath::parse'
+    bodies = ctx.fb.bodies_of_item('pavexc', RP)
+    if not ctx.need('C08.R9', 'RoutePath::parse', bodies):
+        return
+    REVIEWED = {'clone', 'deref', 'deref_mut', 'as_str', 'as_ref', 'borrow', 'to_owned', 'to_string', 'into', 'from', 'new', 'push', 'push_str', 'take', 'replace_with_default',
+                'chars', 'char_indices', 'next', 'peek', 'peekable', 'enumerate', 'reset', 'default', 'with_capacity', 'next_if', 'next_if_eq', 'by_ref', 'into_iter', 'iter', 'branch'}
+    n = 0
+    for b in bodies:
+        defs = None
+        for bb, t in b.calls():
+            if (callee(t) or '').split('::')[-1] == 'insert' and t['aty'] and 'IndexMap<alloc::string::String' in t['aty'][0] and len(t['args']) > 1:
+                defs = defs or Defs(b)
+                n += 1
+                q = op_place(t['args'][1])
+                sl, _ = backward_slice(b, q['l'], defs) if q else ([], set())
+                calls = {strip_generics(c) for c, _, _ in slice_calls(sl) if c}
+                odd = sorted(c for c in calls if c.split('::')[-1] not in REVIEWED and not (c == 'core::mem::take' or c == 'core::mem::replace'))
+                ctx.ob('C08.R9', 'name-as-written|bb%d' % bb, not odd, b.loc(bb, t),
+                       'the key of parameters.insert(..) is built by %d call(s), all collecting / copying%s' % (len(calls), '' if not odd else ' EXCEPT %s: the name the checker compares is not the name the router binds' % odd))
+    ctx.floor('C08.R9', 'parameter registrations in RoutePath::parse', n, 1)
+
+
 def check(ctx):
     r1_roster_on_the_way(ctx)
     r2_reports_errors(ctx)
@@ -572,3 +600,4 @@ def check(ctx):
     r6_whole_domain(ctx)
     r7_skip_conditions(ctx)
     r8_framework_item_lookup_is_exact(ctx)
+    r9_template_names_unmodified(ctx)
